@@ -211,7 +211,20 @@ def lost_worker(item):
     def extra(H):
         ex = H.ex
         H.add_hints(lens(r'^len\(split!', [3, 4]), lens(r'^range\(', [0, 1]), lens(r'OpenIDConnectIDP\.Client\)$', [0]))
-        H.no_inline = re.compile('|'.join(re.escape(x) + '$' for x in LU_SUMMARIES) + r'|/lib/authutil\.')
+        summ = [x for x in LU_SUMMARIES if not (rt['path'] == '/api/v0/login' and x in ('trySelfServiceGenerateBootstrapOTP', 'userBootstrapOtpHash'))]
+        H.no_inline = re.compile('|'.join(re.escape(x) + '$' for x in summ) + r'|/lib/authutil\.')
+        if rt['path'] == '/api/v0/login':
+            H.stub(f'(*{M}.RuntimeState).writeHTMLLoginPage', lambda ex_, st, a, ins: st.ev('page', kind='login') and None)
+            H.stub(f'(*{M}.RuntimeState).writeHTML2FAAuthPage', lambda ex_, st, a, ins: (st.ev('page', kind='2fa'), nilerr())[1])
+            H.stub(f'{M}.getLoginDestination', sweep.st_filtered_destination)
+            H.stub('crypto/sha512.Sum512', lambda ex_, st, a, ins: ex_.zero(ins['type']))
+            H.add_hints(lens(r'AllowedAuthBackendsFor\w+\)$', [0]))
+            LOGINH = f'(*{M}.RuntimeState).loginHandler'; TRY = f'(*{M}.RuntimeState).trySelfServiceGenerateBootstrapOTP'
+            if SAVE not in ir.reachable([LOGINH], within=lambda f: f != TRY):
+                # the login endpoint's only profile write is inside trySelfServiceGenerateBootstrapOTP (call graph): paths end at the statement after it
+                def past(ex_, st, args):
+                    if st.frames and st.frames[-1].fn['name'] == LOGINH: raise PathCut('login: past its only profile write')
+                ex.on_call[f'(*{M}.RuntimeState).userBootstrapOtpHash'] = past
         load, save = store.install(H, initial=lambda ex_, s, user: store.concrete_profile(ex_, s, counts), single=U)
         def make_b(ex_, s2):
             s2.aux['reqid'] = 2
@@ -303,7 +316,8 @@ def ob_lost_update(chk, ir):
         todo.append(rt)
     todo += [{'path': u.split('.')[-1], 'handler': u, 'unit': True} for u in units]
     SHAPES = [{'U2fAuthData': 1, 'WebauthnData': 0, 'TOTPAuthData': 1}, {'U2fAuthData': 0, 'WebauthnData': 1, 'TOTPAuthData': 1}]
-    todo = [(rt, c) for rt in todo for c in SHAPES]
+    LOGIN_SHAPE = {'U2fAuthData': 0, 'WebauthnData': 1, 'TOTPAuthData': 0}      # the login endpoint writes the profile only for users without U2F / TOTP tokens (self-service bootstrap OTP)
+    todo = [(rt, c) for rt in todo for c in ([LOGIN_SHAPE] if rt['path'] == '/api/v0/login' else SHAPES)]
     res = sweep.parallel(lost_worker, todo)
     nsched = njudged = npaths = 0; replayed = set(); per_root = []
     for (rt, counts), out in zip(todo, res):
@@ -334,7 +348,7 @@ def ob_lost_update(chk, ir):
     if njudged == 0: chk.obligation('lost-update', '-', 'inconclusive', 'vacuous: no schedule in which both requests saved'); return
     chk.witnesses += njudged
     chk.obligation('lost-update: an acknowledged Disable/Delete of a second-factor token (B) survives a concurrent profile-mutating request (A) scheduled around it (A loads, B runs, A saves)',
-                   f'{len(todo) // 2} handlers as A x token manager as B, profile with one U2F or one WebAuthn token, B atomic after A\'s load', verdict, paths=npaths, witness=f'{nsched} interleaved schedules, {njudged} with both saves', t=time.time() - t)
+                   f'{len({rt["path"] for rt, c in todo})} handlers as A x token manager as B, profile with one U2F or one WebAuthn token, B atomic after A\'s load', verdict, paths=npaths, witness=f'{nsched} interleaved schedules, {njudged} with both saves', t=time.time() - t)
     if covered: chk.notes.append('lost-update: handlers whose load-modify-save is inside a unit driven on its own: ' + ', '.join(f'{k} (via {v})' for k, v in sorted(covered.items())))
     if skipped: chk.notes.append('lost-update: handlers as request A explored in the thorough tier only: ' + ', '.join(skipped))
     chk.sample({'obligation': 'lost-update', 'per_root': per_root, 'A': sorted({rt['path'] for rt, c in todo}), 'schedules': nsched, 'judged': njudged})
